@@ -30,6 +30,8 @@ def items(ctx):
             fits.append({"k": k, "seed": rng.randint(0, 10 ** 6), "init": rng.choice(["kmeans++", "random", "sample"]),
                          "drop": rng.choice([None, None, 1, 2]), "window": rng.choice([0, 0, 2]),
                          "penalty": rng.choice([0, 0, 1]), "use_c": rng.random() < 0.5, "parallel": False,
+                         # psi incl. per-series 4-tuples: DTW is then not symmetric in (series, mean)
+                         "psi": rng.choice([None, None, None, 1, [1, 0, 0, 0], [0, 0, 1, 0], [1, 1, 0, 0], [0, 1, 1, 0]]),
                          "maxit": rng.choice([1, 2, 5]), "dbait": rng.choice([1, 3]), "monitor": rng.random() < 0.7})
         out.append({"series": sers, "fits": fits, "matrix": rng.random() < 0.4})
     # a few fits through the real multiprocessing pool
@@ -49,7 +51,7 @@ RULE = ("model: the assign / stop / repair-empty / update / final-assign state m
         "and k=3 n=3; max_it <= 2) with outlier masks and empty-cluster repair as nondeterministic choices: every terminal "
         "state has keys 0..k-1, a partition, nearest-mean membership and performed_it <= max_it+1. implementation: "
         "seeded data sets (n 3-8, k < n, ndim 1-2, duplicates, list and matrix containers) x seeds x initialisation "
-        "{k-means++, random, sample size 1} x drop_stddev x window/penalty x use_c, serial and a few with the real "
+        "{k-means++, random, sample size 1} x drop_stddev x window/penalty/psi (scalar and per-series 4-tuples) x use_c, serial and a few with the real "
         "multiprocessing Pool; per fit the returned clusters, performed_it, len(means), the monitor_distances calls and "
         "the dense ranks of the DTW distances series x final means (library single-pair routine, decided under "
         "C01/C02) are judged by TLC with the same postcondition predicate; non-trivial = k > 1")
